@@ -103,18 +103,18 @@ claim("C20",
 
 # deterministic scale cases added after the "hard mode" rounds of seeded changes (DESIGN.md §0, §8)
 SCALE = {
-    "C01": "a 120-slice message at 50 slices per tick with every single (thorough: pair of) lost packet(s); 257-5000 messages queued behind a missing one",
+    "C01": "lazy-application scenarios on a 12 000-byte budget; a 120-slice message at 50 slices per tick with every single (thorough: pair of) lost packet(s); 257-5000 messages queued behind a missing one",
     "C02": "as C01 on unordered channels; 300-5000 messages received ahead of a missing one, duplicates of all of them",
-    "C03": "connections with 129/200/256 channels (ids up to 255), three sizes per channel and direction",
+    "C03": "connections with 129/200/256 channels (ids up to 255), three sizes per channel and direction; single messages of 1.2 MB - 5 MiB on all channel kinds",
     "C05": "used-token table filled with 2047-2100 older tokens, and with 2047-4200 retransmissions of one request, before the token under test is presented from a second address",
     "C06": "31-80 partially reassembled unreliable messages at once",
-    "C08": "the quick ack world keeps two ack packets outstanding",
-    "C09": "1250-2500 packets in flight before the first ack (4 ticks of latency); 60 ticks of exact tick-budget saturation against a reliable stream in the other direction",
+    "C08": "the quick ack world keeps two ack packets outstanding; a 66 000-slice (79 MB) message with three packets lost once",
+    "C09": "single reliable messages up to the 5 MiB default budget (known finding F18 reproduced there); 1250-2500 packets in flight before the first ack (4 ticks of latency); 60 ticks of exact tick-budget saturation against a reliable stream in the other direction",
     "C10": "servers with max_clients 255/256/257/1024 (thorough: 12 sizes) filled by real clients: refusal of one more, payload routing both ways for every client, keep-alive rounds, kick and replace, one time-out",
     "C11": "crowds of 2-300 (thorough: 2000) clients: broadcast, broadcast_except, unicast, sliced broadcast, every client sends; one kicked, one link dead",
     "C12": "2-1000 clients connecting and disconnecting between two event drains",
     "C13": "255-1000 one-byte messages in one flush",
-    "C15": "sessions starting at 7 and 100 days of uptime",
+    "C15": "sessions starting at 7 and 100 days of uptime; acknowledgements 2.2-2.9 s late",
     "C17": "key-stream reuse oracle on every pair of datagrams sealed under one key; fail-over to a second address of the same (multi-homed) server after a challenge and a whole time-out of silence",
     "C18": "300-4100 half-open sessions (table limit 4096); tokens with 32 addresses (only the last / none answering); server uptime of 100 days and 2^32+7 s; late confirmation followed by partial silence; stale denials with a 2 s time-out",
     "C20": "token whose first address is silent; a second, slow server on the same host whose answers arrive after the fail-over; one 2250 ms server update; 12 empty datagrams from a stranger",
